@@ -4,6 +4,8 @@ Property theorems only (helper lemmas: Lemmas/Containers.lean; models: Model/Con
 Model/Headers.lean; generated tables: Gen/Containers.lean).
 -/
 import WzVerif.Lemmas.Containers
+import WzVerif.Lemmas.Containers2
+import WzVerif.Lemmas.ContainersHeap
 namespace Wz.Props.C08
 open Wz Wz.C08L
 
@@ -389,6 +391,428 @@ theorem combined_reads_through (c : CMD.St κ ν) (k : κ) :
   · simp [CMD.contains]
 
 end Combined
+
+/-! ## Immutable variants: unchanged after every refused mutator, over every history -/
+section ImmutableHistories
+open PyDict
+
+/-- every mutator of the MultiDict / dict / Headers models carries the name of a method the
+generated table lists as a mutator of the mutable base class (so the table speaks about the same
+operations the refinement theorems speak about) -/
+theorem model_ops_are_table_mutators {κ ν : Type} :
+    (∀ op : MD.Op κ ν, (Imm.mutators "ImmutableMultiDict").contains (Imm.mdOpName op) = true) ∧
+    (∀ op : PyDict.Op κ ν, (Imm.mutators "ImmutableDict").contains (PyDict.opName op) = true ∧
+      (Imm.mutators "ImmutableTypeConversionDict").contains (PyDict.opName op) = true) ∧
+    (∀ op : Hdr.Op, (Imm.mutators "EnvironHeaders").contains (Imm.hdrOpName op) = true) := by
+  refine ⟨fun op => ?_, fun op => ?_, fun op => ?_⟩
+  · cases op <;> (simp only [Imm.mdOpName]; decide)
+  · cases op <;> (simp only [PyDict.opName]; decide)
+  · cases op <;> (simp only [Imm.hdrOpName]; decide)
+
+/-- **Immutable variants reject every mutator with TypeError and are left unchanged** - as a
+statement over the regenerated blocker table and the models: for each immutable class, every
+history of mutator calls (any length, any arguments) on an instance in any state answers TypeError
+every time and ends in the initial state. `ImmutableMultiDict` and `CombinedMultiDict` over the
+MultiDict mutators, `ImmutableDict` / `ImmutableTypeConversionDict` over the dict mutators,
+`EnvironHeaders` over the Headers mutators; for `ImmutableList` (and every class of the table) over
+any call whose method name is a mutator of the base class, whatever the inherited method would do. -/
+theorem immutable_unchanged_after_refusal {κ ν : Type} [DecidableEq κ] :
+    (∀ cls ∈ ["ImmutableMultiDict", "CombinedMultiDict"], ∀ (c : MD.St κ ν) (ops : List (MD.Op κ ν)),
+      immRun cls c (ops.map fun op => (Imm.mdOpName op, fun c => MD.step c op))
+        = (c, ops.map fun _ => .error "TypeError")) ∧
+    (∀ cls ∈ ["ImmutableDict", "ImmutableTypeConversionDict"], ∀ (d : Dict κ ν) (ops : List (PyDict.Op κ ν)),
+      immRun cls d (ops.map fun op => (PyDict.opName op, fun d => PyDict.step d op))
+        = (d, ops.map fun _ => .error "TypeError")) ∧
+    (∀ (l : Hdr.HList) (ops : List Hdr.Op),
+      immRun "EnvironHeaders" l (ops.map fun op => (Imm.hdrOpName op, fun l => Hdr.step l op))
+        = (l, ops.map fun _ => .error "TypeError")) ∧
+    (∀ (σ ρ : Type) (cls : String) (c : σ) (calls : List (String × (σ → σ × Except String ρ))),
+      (Gen.Containers.immTable.map (·.1)).contains cls = true →
+      (∀ call ∈ calls, (Imm.mutators cls).contains call.1 = true) →
+      immRun cls c calls = (c, calls.map fun _ => .error "TypeError")) := by
+  have tbl : ∀ cls, (Gen.Containers.immTable.map (·.1)).contains cls = true →
+      ∀ name, (Imm.mutators cls).contains name = true → (Imm.blocked cls).contains name = true := by
+    intro cls hc name hm
+    have hall : Gen.Containers.immTable.all (fun (c, _, muts, blocked) => muts.all fun m => blocked.contains m) = true := by
+      decide
+    simp only [List.contains_iff_mem, List.mem_map] at hc
+    obtain ⟨row, hrow, rfl⟩ := hc
+    have hfind : Gen.Containers.immTable.find? (·.1 == row.1) = some row ∨
+        ∃ r, Gen.Containers.immTable.find? (·.1 == row.1) = some r := by
+      cases hf : Gen.Containers.immTable.find? (·.1 == row.1) with
+      | some r => exact Or.inr ⟨r, rfl⟩
+      | none =>
+        rw [List.find?_eq_none] at hf
+        exact absurd (hf row hrow) (by simp)
+    obtain ⟨r, hr⟩ : ∃ r, Gen.Containers.immTable.find? (·.1 == row.1) = some r := by
+      rcases hfind with h | h
+      · exact ⟨row, h⟩
+      · exact h
+    have hrmem := List.mem_of_find?_eq_some hr
+    have := List.all_eq_true.1 hall r hrmem
+    simp only [Imm.mutators, Imm.blocked, hr] at hm ⊢
+    obtain ⟨c0, b0, muts, blocked⟩ := r
+    simp only [List.all_eq_true] at this
+    exact this name (by simpa using hm)
+  have gen : ∀ (σ ρ : Type) (cls : String) (c : σ) (calls : List (String × (σ → σ × Except String ρ))),
+      (Gen.Containers.immTable.map (·.1)).contains cls = true →
+      (∀ call ∈ calls, (Imm.mutators cls).contains call.1 = true) →
+      immRun cls c calls = (c, calls.map fun _ => .error "TypeError") :=
+    fun σ ρ cls c calls hc hm => immRun_unchanged cls c calls (fun call h => tbl cls hc _ (hm call h))
+  have names := @model_ops_are_table_mutators κ ν
+  refine ⟨?_, ?_, ?_, gen⟩
+  · intro cls hcls c ops
+    have hc : (Gen.Containers.immTable.map (·.1)).contains cls = true := by
+      simp only [List.mem_cons, List.not_mem_nil, or_false] at hcls
+      rcases hcls with rfl | rfl <;> decide
+    have hmut : ∀ op : MD.Op κ ν, (Imm.mutators cls).contains (Imm.mdOpName op) = true := by
+      simp only [List.mem_cons, List.not_mem_nil, or_false] at hcls
+      rcases hcls with rfl | rfl
+      · exact names.1
+      · intro op; cases op <;> (simp only [Imm.mdOpName]; decide)
+    have := gen _ _ cls c (ops.map fun op => (Imm.mdOpName op, fun c => MD.step c op)) hc
+      (fun call h => by
+        obtain ⟨op, _, rfl⟩ := List.mem_map.1 h
+        exact hmut op)
+    simpa [Function.comp_def] using this
+  · intro cls hcls d ops
+    have hc : (Gen.Containers.immTable.map (·.1)).contains cls = true := by
+      simp only [List.mem_cons, List.not_mem_nil, or_false] at hcls
+      rcases hcls with rfl | rfl <;> decide
+    have hmut : ∀ op : PyDict.Op κ ν, (Imm.mutators cls).contains (PyDict.opName op) = true := by
+      simp only [List.mem_cons, List.not_mem_nil, or_false] at hcls
+      rcases hcls with rfl | rfl
+      · exact fun op => (names.2.1 op).1
+      · exact fun op => (names.2.1 op).2
+    have := gen _ _ cls d (ops.map fun op => (PyDict.opName op, fun d => PyDict.step d op)) hc
+      (fun call h => by
+        obtain ⟨op, _, rfl⟩ := List.mem_map.1 h
+        exact hmut op)
+    simpa [Function.comp_def] using this
+  · intro l ops
+    have := gen _ _ "EnvironHeaders" l (ops.map fun op => (Imm.hdrOpName op, fun l => Hdr.step l op)) (by decide)
+      (fun call h => by
+        obtain ⟨op, _, rfl⟩ := List.mem_map.1 h
+        exact names.2.2 op)
+    simpa [Function.comp_def] using this
+
+example : (Imm.mdStep "ImmutableMultiDict" ([(1, [2])] : MD.St Nat Nat) (.add 1 3)) = ([(1, [2])], .error "TypeError") := by
+  rfl
+
+end ImmutableHistories
+
+/-! ## TypeConversionDict and FileMultiDict -/
+section TypeConv
+open PyDict
+variable {κ ν τ : Type} [DecidableEq κ]
+
+/-- `TypeConversionDict.get(key, default, type)` (also `ImmutableTypeConversionDict`, `MultiDict`,
+whose `get` is this one on the first value): the converted value when the key is present and the
+callable accepts it; the default when the key is missing or the callable raises ValueError /
+TypeError - and it is a read: on the immutable variant it is not refused (`get` is not in the
+blocker table). -/
+theorem typeconv_get (conv : ν → Option τ) (d : Dict κ ν) (k : κ) (dflt : Option τ) :
+    (PyDict.get? d k = none → TCD.get conv d k dflt = dflt) ∧
+    (∀ v x, PyDict.get? d k = some v → conv v = some x → TCD.get conv d k dflt = some x) ∧
+    (∀ v, PyDict.get? d k = some v → conv v = none → TCD.get conv d k dflt = dflt) ∧
+    (Imm.blocked "ImmutableTypeConversionDict").contains "get" = false := by
+  refine ⟨fun h => by simp [TCD.get, h], fun v x h hc => by simp [TCD.get, h, hc],
+    fun v h hc => by simp [TCD.get, h, hc], by decide⟩
+
+/-- ... and on a MultiDict `get(key, type=conv)` is the conversion of the *first* value of the key -/
+theorem md_get_typed_first (conv : ν → Option τ) (c : MD.St κ ν) (h : MDSpec.WF c) (k : κ) :
+    MD.getTyped conv c k = (MDSpec.first? c k).bind conv := by
+  unfold MD.getTyped MD.getitem PyDict.get?
+  rw [C08L.first?_eq c h k]
+  cases hl : c.lookup k with
+  | none => rfl
+  | some vs =>
+    cases vs with
+    | nil => exact absurd rfl (MDLemmas.lookup_ne_nil h hl)
+    | cons v r => rfl
+
+/-- `FileMultiDict.add_file(name, file, filename, content_type)` is `add(name, storage)`: the
+field's list of files grows by exactly the one `FileStorage` built from the arguments (the given
+object itself when it already is a `FileStorage`; otherwise a new one around the stream / opened
+path, carrying the field name, the file name - the path when none is given - and a content type
+guessed from the file name when none is given), every other field is untouched; hence the file
+variant refines the same multimap (`md_refines` with values = file storages). -/
+theorem filemultidict_add_file (guess : Hdr.Str → Option Hdr.Str) (c : MD.St Hdr.Str FMD.FS) (name : Hdr.Str)
+    (f : FMD.FileArg) (filename ct : Option Hdr.Str) (k : Hdr.Str) :
+    FMD.addFile guess c name f filename ct = (MD.step c (.add name (FMD.mkStorage guess name f filename ct))).1 ∧
+    MD.getlist (FMD.addFile guess c name f filename ct) k =
+      (if k = name then MD.getlist c name ++ [FMD.mkStorage guess name f filename ct] else MD.getlist c k) ∧
+    (∀ fs, FMD.mkStorage guess name (.storage fs) filename ct = fs) ∧
+    (∀ p h, (FMD.mkStorage guess name (.path p h) none none).filename = some p) := by
+  refine ⟨rfl, ?_, fun _ => rfl, fun _ _ => rfl⟩
+  unfold FMD.addFile
+  rw [getlist_add]
+
+example : FMD.mkStorage (fun _ => some "text/plain".toList) "f".toList (.stream 7) (some "a.txt".toList) none
+    = ⟨7, some "a.txt".toList, some "f".toList, some "text/plain".toList⟩ := by decide
+
+end TypeConv
+
+/-! ## bulk operations from every input form -/
+section Bulk
+open PyDict MD
+variable {κ ν : Type} [DecidableEq κ]
+
+/-- `update` / `|=` / `|` from every supported input form (iterable of pairs, dict with scalar or
+list / tuple / set values, another MultiDict): afterwards every key has its old values followed by
+the values the argument gives it, in the argument's order (`iter_multi_items`); keys the argument
+does not mention keep their lists. No input form replaces existing values. -/
+theorem md_update_getlist (c : MD.St κ ν) (a : MD.Arg κ ν) (k : κ) :
+    MD.getlist (MD.step c (.update a)).1 k =
+      MD.getlist c k ++ ((MD.iterMultiItems a).filter (fun p => p.1 == k)).map (·.2) ∧
+    (MD.step c (.ior a)).1 = (MD.step c (.update a)).1 :=
+  ⟨getlist_addAll c _ k, rfl⟩
+
+/-- the constructor from pairs is `update` on an empty dict; from a dict with distinct keys too
+(list values as they are, scalars as one-element lists, empty lists skipped); from a MultiDict it is
+that MultiDict's state (`copy`) -/
+theorem md_construct_forms (l : List (κ × ν)) (c : MD.St κ ν) (hc : MDSpec.WF c) :
+    MD.construct (some (.pairs l)) = (MD.step [] (.update (.pairs l))).1 ∧
+    MD.construct (some (.multi c)) = c ∧
+    MD.construct (some (.mapping (c.map fun e => (e.1, MD.MVal.many e.2)))) = c := by
+  refine ⟨rfl, rfl, ?_⟩
+  rw [construct_mapping_many c hc.2, dictOf_self c hc.1]
+
+/-- **the single-key mutators, stated as laws on the reads** (a multimap state `c`, any keys):
+`d[k] = v` / `setlist` give `k` exactly the new values; `del d[k]`, `pop`, `poplist` leave `k`
+without values and return the first value / the whole list; `setdefault` returns the first value of a
+present key and otherwise stores and returns the default; `popitem` / `popitemlist` take the key
+inserted last. No other key's list changes in any of them. -/
+theorem md_mutator_laws (c : MD.St κ ν) (hw : MDSpec.WF c) (k k' : κ) (v : ν) (vs : List ν) (d : Option ν) :
+    MD.getlist (MD.step c (.setitem k v)).1 k' = (if k' = k then [v] else MD.getlist c k') ∧
+    MD.getlist (MD.step c (.setlist k vs)).1 k' = (if k' = k then vs else MD.getlist c k') ∧
+    (has c k = true → MD.getlist (MD.step c (.delitem k)).1 k' = (if k' = k then [] else MD.getlist c k')) ∧
+    MD.getlist (MD.step c (.pop k d)).1 k' = (if k' = k then [] else MD.getlist c k') ∧
+    (∀ x, MDSpec.first? c k = some x → (MD.step c (.pop k d)).2 = .ok (.val x)) ∧
+    MD.getlist (MD.step c (.poplist k)).1 k' = (if k' = k then [] else MD.getlist c k') ∧
+    (MD.step c (.poplist k)).2 = .ok (.vals (MD.getlist c k)) ∧
+    (∀ x, MDSpec.first? c k = some x → MD.step c (.setdefault k v) = (c, .ok (.val x))) ∧
+    (MDSpec.first? c k = none → MD.getlist (MD.step c (.setdefault k v)).1 k' = (if k' = k then [v] else MD.getlist c k') ∧
+      (MD.step c (.setdefault k v)).2 = .ok (.val v)) ∧
+    (MD.step c .popitem).1 = c.dropLast ∧ (MD.step c .popitemlist).1 = c.dropLast := by
+  have hn := hw.1
+  have hfirst := C08L.first?_eq c hw k
+  have hpop : (MD.step c (.pop k d)).1 = (if has c k then erase c k else c) := by
+    simp only [MD.step, has]
+    split <;> (rename_i heq; simp only [PyDict.get?] at heq ⊢; simp [heq])
+  have hpl : (MD.step c (.poplist k)).1 = (if has c k then erase c k else c) := by
+    simp only [MD.step, has]
+    split <;> (rename_i heq; simp only [PyDict.get?] at heq ⊢; simp [heq])
+  have hnot : has c k = false → MD.getlist c k = [] := by
+    intro h
+    unfold has at h
+    unfold MD.getlist PyDict.get?
+    cases hg : c.lookup k with
+    | none => rfl
+    | some l => rw [hg] at h; cases h
+  have herase : ∀ kk, MD.getlist (if has c k then erase c k else c) kk = if kk = k then [] else MD.getlist c kk := by
+    intro kk
+    cases hh : has c k with
+    | true => simp only [if_true]; exact getlist_erase c hn k kk
+    | false =>
+      simp only [Bool.false_eq_true, if_false]
+      by_cases e : kk = k
+      · subst e; simp [hnot hh]
+      · simp [e]
+  refine ⟨getlist_set c k k' [v], getlist_set c k k' vs, ?_, ?_, ?_, ?_, ?_, ?_, ?_, ?_, ?_⟩
+  · intro hh
+    simp only [MD.step, hh, if_true]
+    exact getlist_erase c hn k k'
+  · rw [hpop]; exact herase k'
+  · intro x hx
+    rw [hfirst] at hx
+    simp only [MD.step, PyDict.get?]
+    cases hl : c.lookup k with
+    | none => rw [hl] at hx; simp at hx
+    | some l =>
+      rw [hl] at hx
+      cases l with
+      | nil => simp at hx
+      | cons y r => simp at hx; subst hx; rfl
+  · rw [hpl]; exact herase k'
+  · simp only [MD.step, MD.getlist]
+    split <;> (rename_i heq; simp [heq])
+  · intro x hx
+    rw [hfirst] at hx
+    have hh : has c k = true := by
+      unfold has
+      cases hl : c.lookup k with
+      | none => rw [hl] at hx; simp at hx
+      | some l => rfl
+    simp only [MD.step, hh, if_true, MD.getitem, PyDict.get?]
+    cases hl : c.lookup k with
+    | none => rw [hl] at hx; simp at hx
+    | some l =>
+      rw [hl] at hx
+      cases l with
+      | nil => simp at hx
+      | cons y r => simp at hx; subst hx; rfl
+  · intro hx
+    rw [hfirst] at hx
+    have hh : has c k = false := by
+      unfold has
+      cases hl : c.lookup k with
+      | none => rfl
+      | some l =>
+        rw [hl] at hx
+        cases l with
+        | nil => exact absurd rfl (MDLemmas.lookup_ne_nil hw hl)
+        | cons y r => simp at hx
+    simp only [MD.step, hh, Bool.false_eq_true, if_false]
+    refine ⟨getlist_set c k k' [v], ?_⟩
+    simp [MD.getitem, PyDict.get?, lookup_set_self, Except.map]
+  · simp only [MD.step, PyDict.popitem]
+    cases hg : c.getLast? with
+    | none => simp [List.getLast?_eq_none_iff.1 hg]
+    | some e => obtain ⟨ek, el⟩ := e; cases el <;> rfl
+  · simp only [MD.step, PyDict.popitem]
+    cases hg : c.getLast? with
+    | none => simp [List.getLast?_eq_none_iff.1 hg]
+    | some e => rfl
+
+end Bulk
+
+/-! ## CombinedMultiDict is the merge of the wrapped dicts -/
+section CombinedMerge
+open PyDict MD
+variable {κ ν : Type} [DecidableEq κ]
+
+/-- `lists()`, `listvalues()`, `to_dict(flat=False)` of a CombinedMultiDict over dicts with distinct
+keys: one entry per key of any wrapped dict, in order of first appearance, holding the wrapped
+dicts' value lists for that key concatenated in dict order (= `getlist`). -/
+theorem combined_lists_merged (c : CMD.St κ ν) (hn : ∀ d ∈ c, NodupKeys d) :
+    NodupKeys (CMD.lists c) ∧
+    keys (CMD.lists c) = firstOcc [] (c.flatMap keys) ∧
+    ∀ k, (CMD.lists c).lookup k = if CMD.contains c k then some (CMD.getlist c k) else none :=
+  cmd_lists_spec c hn
+
+example : CMD.lists ([[(1, [10]), (2, [20])], [(2, [21]), (3, [30]), (1, [11, 12])]] : CMD.St Nat Nat)
+    = [(1, [10, 11, 12]), (2, [20, 21]), (3, [30])] := by decide
+
+/-- `combined.get(key)` / `combined[key]`: first wins - the first wrapped dict that has the key
+answers with its first value; `get(key, type=conv)` skips dicts whose first value does not convert. -/
+theorem combined_get_first_wins {τ : Type} (conv : ν → Option τ) (c : CMD.St κ ν) (k : κ)
+    (hv : ∀ d ∈ c, has d k = true → ∃ v, MD.getitem d k = .ok v) :
+    CMD.get c k = (match c.find? (has · k) with
+      | some d => (MD.getitem d k).map some
+      | none => .ok none) ∧
+    CMD.getTyped conv c k = .ok ((c.filterMap fun d => MD.getTyped conv d k).head?) :=
+  ⟨cmd_get_first c k, cmd_getTyped_first conv c k hv⟩
+
+end CombinedMerge
+
+/-! ## pickling, copying, equality and hashing -/
+section PickleEq
+open PyDict MD Pickle
+variable {κ ν : Type} [DecidableEq κ]
+
+/-- **pickle round trip**: `__setstate__(__getstate__())` of a MultiDict with distinct keys restores
+the state exactly (keys, order, value lists - also lists without values); the immutable variant,
+which pickles as `cls(list(items(multi=True)))`, is restored exactly when it is a multimap state. -/
+theorem md_pickle_roundtrip (c old : MD.St κ ν) (hn : NodupKeys c) :
+    mdSetstate old (mdGetstate c) = c ∧ (MDSpec.WF c → imdRebuild c = c) := by
+  constructor
+  · unfold mdSetstate mdGetstate MD.lists
+    rw [dictOf_self c hn, dictOf_self c hn]
+  · intro hw
+    unfold imdRebuild MD.construct
+    simpa using addAll_itemsMulti [] c (by simpa using hn) hw.2
+
+/-- `copy()` and `deepcopy()` (values as atoms) of a multimap state yield an equal state; this is
+the *content* half of "copies are consistent" - independence is `copy_independent` below, in a model
+with object identity. `deepcopy` goes through the dict constructor and therefore drops a key without
+values (a consequence of F08d). -/
+theorem md_copy_eq (c : MD.St κ ν) (hw : MDSpec.WF c) :
+    mdCopy c = c ∧ mdDeepcopy c = c := by
+  refine ⟨rfl, ?_⟩
+  unfold mdDeepcopy MD.lists
+  rw [dictOf_self c hw.1, construct_mapping_many c hw.2, dictOf_self c hw.1]
+
+theorem md_deepcopy_drops_empty : mdDeepcopy ([(0, []), (1, [5])] : MD.St Nat Nat) = [(1, [5])] := by decide
+
+/-- **equality and hashing are consistent** for the immutable multidict (and dict): `==` is dict
+equality of the key → value-list maps; `hash` is the hash of the *frozenset* of `items(multi=True)`
+(`ImmutableMultiDictMixin._iter_hashitems`). Equal objects have the same set of (key, value) pairs
+- whatever the order in which their keys were inserted - hence equal hashes. -/
+theorem imd_eq_hash_consistent [DecidableEq ν] (a b : MD.St κ ν) (ha : NodupKeys a) (hb : NodupKeys b)
+    (h : dictEq a b = true) : ∀ p, p ∈ MD.itemsMulti a ↔ p ∈ MD.itemsMulti b := by
+  have he := dictEq_same_entries a b ha hb h
+  intro p
+  simp only [MD.itemsMulti, List.mem_flatMap, List.mem_map]
+  constructor
+  · rintro ⟨e, hea, v, hv, rfl⟩; exact ⟨e, (he e).1 hea, v, hv, rfl⟩
+  · rintro ⟨e, heb, v, hv, rfl⟩; exact ⟨e, (he e).2 heb, v, hv, rfl⟩
+
+example : dictEq ([(1, [2, 3]), (4, [5])] : MD.St Nat Nat) [(4, [5]), (1, [2, 3])] = true := by decide
+
+/-- `Headers.copy()` (`cls(self._list)`, every pair re-added through `add`) and pickling (the
+instance dict, i.e. `_list`) give a Headers with the same pair list, for every list of stored
+values (stored values are CR/LF-free: C05 `headers_newline_free`). -/
+theorem headers_copy_eq (l : Hdr.HList) (h : ∀ p ∈ l, Hdr.hasNL p.2 = false) :
+    Hdr.construct (some (.pairs l)) = .ok l := by
+  simp [Hdr.construct, Hdr.extend, Hdr.extendHead, Hdr.iterMultiItems, Hdr.andThen, addPairs_clean [] l h,
+    Hdr.mapItems, Hdr.addPairs]
+
+end PickleEq
+
+/-! ## copies are independent of the original - in a model with object identity
+
+`HeapMD`: the inner lists of a MultiDict are heap objects, mutators change them in place where the
+Python code does, `setlistdefault` leaks the live list (`Ev.via`), `copy()` / `copy.copy` /
+`deepcopy` / unpickling allocate new list objects. -/
+section CopyIndependence
+open HeapMD
+variable {κ ν : Type} [DecidableEq κ]
+
+/-- the heap model refines the functional model: every history of mutators and of appends through
+leaked live lists on one MultiDict object changes its value exactly as the functional model says -/
+theorem heap_refines (h : Heap ν) (o : Obj κ) (hw : HeapMD.WF h o) (evs : List (Ev κ ν)) :
+    abs (run h o evs).1 (run h o evs).2 = runAbs (abs h o) evs :=
+  (run_spec h o evs hw).1
+
+example : HeapMD.WF ([[1, 2], [3]] : Heap Nat) ([(10, 1), (20, 0)] : Obj Nat) := by
+  refine ⟨by simp [PyDict.NodupKeys], by simp [addrs], ?_⟩
+  intro a ha; simp [addrs] at ha; rcases ha with rfl | rfl <;> decide
+
+/-- **Copies are independent of the original.** Take any MultiDict object (distinct keys, every key
+its own list object), copy it (`copy()`, `copy.copy`, `deepcopy`, pickle round trip: new list object
+per key). Then: the copy has the same value; after ANY history on the copy - every public mutator,
+and appends to live lists obtained from the copy - the original still has its value while the copy
+has the value the functional model computes; and after any further history on the original the copy
+keeps its value. No bound on the histories. -/
+theorem copy_independent (h : Heap ν) (o : Obj κ) (hw : HeapMD.WF h o) (evsCopy evsOrig : List (Ev κ ν)) :
+    let w1 := copyObj h o
+    let w2 := run w1.1 w1.2 evsCopy
+    let w3 := run w2.1 o evsOrig
+    abs w1.1 w1.2 = abs h o ∧
+    abs w2.1 o = abs h o ∧ abs w2.1 w2.2 = runAbs (abs h o) evsCopy ∧
+    abs w3.1 w2.2 = abs w2.1 w2.2 ∧ abs w3.1 w3.2 = runAbs (abs h o) evsOrig := by
+  intro w1 w2 w3
+  obtain ⟨c1, c2, csep⟩ := copyObj_spec h o hw
+  obtain ⟨r1, r2, r3⟩ := run_spec w1.1 w1.2 evsCopy csep.2.1
+  obtain ⟨f1, f2⟩ := frame w1.1 o w1.2 w2.1 w2.2 csep r2 r3
+  have sym : Sep w2.1 w2.2 o := ⟨f2.2.1, f2.1, fun a ha hm => f2.2.2 a hm ha⟩
+  obtain ⟨s1, s2, s3⟩ := run_spec w2.1 o evsOrig f2.1
+  obtain ⟨g1, _⟩ := frame w2.1 w2.2 o w3.1 w3.2 sym s2 s3
+  refine ⟨c1, by rw [f1, c2], by rw [r1, c1], g1, by rw [s1, f1, c2]⟩
+
+/-- the statement is not vacuous and not automatic: a copy that shares the list objects (what a
+plain `dict.copy` of the underlying dict would be) is NOT independent - `copy.add(k, v)` on a key
+that exists changes the original -/
+theorem alias_copy_not_independent :
+    let h : Heap Nat := [[1]]
+    let o : Obj Nat := [(0, 0)]
+    let w1 := aliasCopy h o
+    let w2 := run w1.1 w1.2 [.op (.add 0 2)]
+    abs w2.1 o ≠ abs h o := by
+  decide
+
+end CopyIndependence
 
 /-! ## EnvironHeaders reflects the environ -/
 section Environ
